@@ -106,7 +106,9 @@ def check_conversion_semantics(ctx, rid_shell, rid_basis, tables, rid_reject=Non
         else:
             ctx.ok(rid_shell, f"{nsyn} synthetic signed re-orderings of three labels (a function both moved and sign-flipped included): permutation and signs follow the definition in both directions", f"{ccs.module.relpath}:{ccs.lineno}")
         # 3. rejections
-        rej = [(["x", "x", "z"], ["x", "y", "z"]), (["x", "y", "z"], ["x", "-x", "z"]), (["x", "y"], ["x", "y", "z"]), (["x", "y", "w"], ["x", "y", "z"]), (["x", "-x", "z"], ["x", "-x", "z"]), (["x", "y", "z"], ["x", "y", "y"])]
+        rej = [(["x", "x", "z"], ["x", "y", "z"]), (["x", "y", "z"], ["x", "-x", "z"]), (["x", "y"], ["x", "y", "z"]), (["x", "y", "w"], ["x", "y", "z"]), (["x", "-x", "z"], ["x", "-x", "z"]), (["x", "y", "z"], ["x", "y", "y"]),
+               # single-function shells are no exception: the one label must agree too
+               (["s"], ["1"]), (["-s"], ["1"]), (["1"], ["s"]), (["x"], ["x", "x"])]
         badr = [(a, b, rv) for a, b in rej for rv in (False, True) if run_shell(a, b, rv) != "ValueError"]
         rid_rej = rid_reject or rid_shell
         if badr:
@@ -136,6 +138,13 @@ def check_conversion_semantics(ctx, rid_shell, rid_basis, tables, rid_reject=Non
                 ctx.ok(rid_basis, f"convert_conventions(reverse={reverse}) on an abstract basis of 5 shells / 7 contractions (generalized SP and mixed d shells included): the shell results are concatenated in shell / contraction order with running offsets ({len(wp)} functions)", f"{cc.module.relpath}:{cc.lineno}")
             else:
                 ctx.violate(rid_basis, f"convert_conventions(reverse={reverse}) on an abstract 5-shell basis returns permutation {str(gp)[:80]}, signs {str(gs)[:60]}; by the definition {str(wp)[:80]}, {str(ws)[:60]}", cc, cc.node, construct=f"basis conversion reverse={reverse}")
+        # ... nor may a key missing from the basis's *own* conventions be replaced by some default table
+        try:
+            b2 = Rec(basis_cls, shells=basis.fields["shells"], conventions={k_: v_ for k_, v_ in src_tab.items() if k_ != (2, "p")}, primitive_normalization="L2")
+            ev(cc).run_free(cc, [b2, new_tab], {"reverse": False})
+            ctx.violate(rid_basis, "convert_conventions accepts a basis whose own conventions do not define one of its shell types (another table is assumed silently)", cc, cc.node, construct="basis conversion missing source key")
+        except Raised as exc:
+            ctx.ok(rid_basis, f"a shell type missing from the basis's own conventions raises {exc.cls}", f"{cc.module.relpath}:{cc.lineno}", sample=False)
         # a key missing from the new conventions must not be skipped silently
         try:
             t2 = dict(new_tab)
